@@ -51,7 +51,10 @@ func (m *Machine) global(g *ssa.Global) *Obj {
 		m.globals[g] = o
 		return o
 	}
-	if pt, ok := et.Underlying().(*types.Pointer); ok {
+	if types.IsInterface(et) && et.String() == "error" {
+		// package-level error values (io.EOF, ...) are created by errors.New in init(): distinct non-nil opaque errors
+		init = IfaceV{typ: et, v: OpaqueV{"err:" + g.String()}}
+	} else if pt, ok := et.Underlying().(*types.Pointer); ok {
 		// lazily materialise the pointee of an init()-assigned pointer global
 		po := m.newObj(m.zero(pt.Elem()), g.String())
 		po.fresh = false
@@ -214,6 +217,7 @@ func (m *Machine) indexAddr(f *frame, x *ssa.IndexAddr) Value {
 		n = int(x.X.Type().Underlying().(*types.Pointer).Elem().Underlying().(*types.Array).Len())
 	case SliceV:
 		obj, off, n = b.arr, b.off, b.len
+		path = append([]PathElem{}, b.base...)
 	default:
 		panic(fmt.Sprintf("IndexAddr on %T", base))
 	}
@@ -263,18 +267,17 @@ func (m *Machine) slice(f *frame, x *ssa.Slice) Value {
 			m.oblige(m.cbool(false), "slice bounds out of range", m.prog.Fset.Position(x.Pos()).String())
 			m.fail("slice")
 		}
-		if len(b.path) != 0 {
-			// array nested in struct: materialise a view object sharing is not modelled; copy-free trick: make the field its own object
-			panic("slice of nested array not supported in prototype")
+		if len(b.alts) > 0 {
+			panic("slice of a guarded pointer")
 		}
-		return SliceV{arr: b.obj, off: lo, len: hi - lo, cap: n - lo}
+		return SliceV{arr: b.obj, base: append([]PathElem{}, b.path...), off: lo, len: hi - lo, cap: n - lo}
 	case SliceV:
 		lo, hi := gi(x.Low, 0), gi(x.High, b.len)
 		if lo < 0 || hi > b.cap || lo > hi {
 			m.oblige(m.cbool(false), fmt.Sprintf("slice bounds out of range [%d:%d] with capacity %d", lo, hi, b.cap), m.prog.Fset.Position(x.Pos()).String())
 			m.fail("slice")
 		}
-		return SliceV{arr: b.arr, off: b.off + lo, len: hi - lo, cap: b.cap - lo}
+		return SliceV{arr: b.arr, base: b.base, off: b.off + lo, len: hi - lo, cap: b.cap - lo}
 	case StrV:
 		lo, hi := gi(x.Low, 0), gi(x.High, len(b.s))
 		return StrV{b.s[lo:hi]}
@@ -338,17 +341,17 @@ func (m *Machine) builtin(name string, args []Value, x *ssa.Call) Value {
 			}
 			tmp := make([]Value, n)
 			for i := 0; i < n; i++ {
-				tmp[i] = m.load(Ptr{obj: src.arr, path: []PathElem{{k: src.off + i}}})
+				tmp[i] = m.load(elemPtr(src, i))
 			}
 			for i := 0; i < n; i++ {
-				m.store(Ptr{obj: dst.arr, path: []PathElem{{k: dst.off + i}}}, tmp[i])
+				m.store(elemPtr(dst, i), tmp[i])
 			}
 		case StrV:
 			if len(src.s) < n {
 				n = len(src.s)
 			}
 			for i := 0; i < n; i++ {
-				m.store(Ptr{obj: dst.arr, path: []PathElem{{k: dst.off + i}}}, m.constInt(big.NewInt(int64(src.s[i])), types.Typ[types.Uint8]))
+				m.store(elemPtr(dst, i), m.constInt(big.NewInt(int64(src.s[i])), types.Typ[types.Uint8]))
 			}
 		}
 		return m.constInt(big.NewInt(int64(n)), types.Typ[types.Int])
@@ -358,10 +361,10 @@ func (m *Machine) builtin(name string, args []Value, x *ssa.Call) Value {
 		et := x.Type().Underlying().(*types.Slice).Elem()
 		arr := ArrayV{}
 		for i := 0; i < dst.len; i++ {
-			arr.elems = append(arr.elems, m.load(Ptr{obj: dst.arr, path: []PathElem{{k: dst.off + i}}}))
+			arr.elems = append(arr.elems, m.load(elemPtr(dst, i)))
 		}
 		for i := 0; i < src.len; i++ {
-			arr.elems = append(arr.elems, m.load(Ptr{obj: src.arr, path: []PathElem{{k: src.off + i}}}))
+			arr.elems = append(arr.elems, m.load(elemPtr(src, i)))
 		}
 		_ = et
 		return SliceV{arr: m.newObj(arr, "append"), len: len(arr.elems), cap: len(arr.elems)}
@@ -481,7 +484,7 @@ func (m *Machine) intrinsic(fn *ssa.Function, args []Value) (Value, bool) {
 			var sb strings.Builder
 			okAll := true
 			for i := 0; i < sl.len; i++ {
-				k, ok := concreteBig(m.load(Ptr{obj: sl.arr, path: []PathElem{{k: sl.off + i}}}))
+				k, ok := concreteBig(m.load(elemPtr(sl, i)))
 				if !ok {
 					okAll = false
 					break
@@ -655,8 +658,8 @@ func (m *Machine) intrinsic(fn *ssa.Function, args []Value) (Value, bool) {
 		}
 		c := m.cbool(true)
 		for i := 0; i < a.len; i++ {
-			x := m.load(Ptr{obj: a.arr, path: []PathElem{{k: a.off + i}}})
-			y := m.load(Ptr{obj: b.arr, path: []PathElem{{k: b.off + i}}})
+			x := m.load(elemPtr(a, i))
+			y := m.load(elemPtr(b, i))
 			c = cAnd(c, m.binop(token.EQL, x, y, types.Typ[types.Bool], types.Typ[types.Uint8], 0).(VBool).c)
 		}
 		if m.intMode {
